@@ -135,4 +135,36 @@ def check(ctx: Ctx) -> None:
     from .c12 import shipped_rule
 
     shipped_rule(ctx, "C08.shipped", ("fc",))
+
+    # the shipped dictionary based evaluator end to end: results are handed on as provided - also an unfulfilled one without a message
+    def shipped_e2e():
+        from ..fdvalues import ClassVal
+
+        NODES = "ahbicht.models.condition_nodes"
+        for text, vals in (("[950] U [951]", {"950": False, "951": True}), ("[950] O [951]", {"950": False, "951": False}), ("[950] X [951]", {"950": True, "951": True}),
+                           ("[950]", {"950": False}), ("([950] U [951]) O [952]", {"950": False, "951": True, "952": False})):
+            for with_message in (True, False):
+                def run(ch, text=text, vals=vals, with_message=with_message):
+                    h = Harness(model, ch)
+                    table = {k: Obj(f"{NODES}.EvaluatedFormatConstraint", {"format_constraint_fulfilled": v, "error_message": (None if v or not with_message else f"{k} violated")}) for k, v in vals.items()}
+                    h.provider.fields["fc"] = h.it.construct(ClassVal("ahbicht.content_evaluation.fc_evaluators.DictBasedFcEvaluator"), [table], {}, None, None)
+                    try:
+                        r = h.format_evaluation(text)
+                    except PyRaise as err:
+                        return ("raise", err.exc.cls)
+                    return ("ret", r.fields.get("format_constraints_fulfilled") if isinstance(r, Obj) else repr(r))
+
+                outs = sorted({o for _t, o in explore(run)}, key=repr)
+                want = refsem.fc_value(refsem.parse_condition(text), vals) if hasattr(refsem, "fc_value") else None
+                if want is None:
+                    import re as _re
+
+                    expr_py = _re.sub(r"\[(\d+)\]", lambda m: str(vals[m.group(1)]), text).replace("U", " and ").replace("O", " or ").replace("X", " != ")
+                    want = bool(eval(expr_py))  # noqa: S307 - a Boolean expression over True/False built from literals above
+                ctx.count()
+                ctx.ob("C08.shipped", f"e2e:{text}:{'with' if with_message else 'without'}-message", outs == [("ret", want)],
+                       f"format_constraint_evaluation({text!r}) with the shipped DictBasedFcEvaluator ({vals}, unfulfilled results {'with' if with_message else 'without'} a message) gives {outs}; "
+                       f"the Boolean value is {want}", file="src/ahbicht/expressions/format_constraint_expression_evaluation.py", function="format_constraint_evaluation")
+
+    ctx.soft(shipped_e2e)
     ctx.assume("precedence of the re-parse is the documented one (C01); parse functions are summarised by the reference parser")
